@@ -571,7 +571,8 @@ def gen_stress(rng, kind, idx, heavy=False):
             tasks[str(tid)] = {'plain': True, 'results': results}
         elif rng.random() < 0.12:
             tasks[str(tid)] = {'rscript': rng.choice([[['self_next']], [['yield', 1, 64], ['self_next']], [['yield', 0, 64], ['raise']],
-                                                      [['yield', 1, 64], ['stop']], [['raise']]])}
+                                                      [['yield', 1, 64], ['stop']], [['raise']]] +
+                                                     ([[['bpb', 3], ['yield', 1, 64], ['bpb', 5]]] * 2 if kind == 'tempo' else []))}
     threads = []
     for _ in range(nthreads):
         ops = []
